@@ -345,7 +345,7 @@ func CompileList(list List) (f Object) {
 				lc := Lambda{
 					Doc: &FuncDoc{
 						Name: name,
-						Args: []*DocArg{},
+						Args: []*DocArg{{Name: AmpRest}, {Name: "args"}},
 					},
 					Forms: List{Undefined(name)},
 				}
@@ -355,6 +355,7 @@ func CompileList(list List) (f Object) {
 						Function: Function{
 							Name: name,
 							Self: &lc,
+							Args: args,
 						},
 					}
 				}
